@@ -353,6 +353,16 @@ CAIMPORT = r"""
     assert_eq!(got.subject_alt_names, p.subject_alt_names, "subject alternative names not recovered");
     assert_eq!(got.name_constraints, p.name_constraints, "name constraints not recovered");
     assert_eq!(got.key_identifier_method, p.key_identifier_method, "subject key identifier not captured as a fixed key identifier");
+    // an intermediate CA (authority key identifier written before its subject key identifier): the captured identifier is its own SKI, not its issuer's
+    for method in [KeyIdMethod::Sha256, KeyIdMethod::Sha384, KeyIdMethod::Sha512, KeyIdMethod::PreSpecified(vec![5; 8])] {
+        let root_key = KeyPair::generate().unwrap();
+        let root = base().self_signed(&root_key).unwrap();
+        let mut ip = base(); ip.use_authority_key_identifier_extension = true; ip.key_identifier_method = method.clone();
+        ip.distinguished_name.push(DnType::CommonName, "replay intermediate");
+        let inter = ip.signed_by(&key, &root, &root_key).unwrap();
+        let got = CertificateParams::from_ca_cert_der(inter.der()).unwrap();
+        assert_eq!(got.key_identifier_method, KeyIdMethod::PreSpecified(inter.key_identifier()), "imported intermediate: the captured key identifier is not the certificate's subject key identifier");
+    }
     let mut p2 = base(); p2.name_constraints = Some(NameConstraints { permitted_subtrees: vec![], excluded_subtrees: vec![GeneralSubtree::DnsName("c.example".into())] });
     assert_eq!(import(&p2).name_constraints, p2.name_constraints, "excluded-only name constraints not recovered");
 """
@@ -484,7 +494,7 @@ CLI = r"""
     for (alg, verify, label) in &algs { for (client, server) in [(false, false), (true, false), (false, true), (true, true)] {
         n += 1;
         let dir = root.join(format!("run{}", n));
-        let mut args: Vec<&str> = vec!["--san", "a.example", "--san", "10.1.2.3", "--san", "localhost", "--san", "2001:db8::1", "--common-name", "replay ee",
+        let mut args: Vec<&str> = vec!["--san", "a.example", "--san", "10.1.2.3", "--san", "localhost", "--san", "2001:db8::1", "--san", "fe80::1", "--san", "FD00::5", "--common-name", "replay ee",
             "--country-name", "NL", "--organization-name", "replay org", "--cert-file-name", "leaf", "--ca-file-name", "theca"];
         let flag = format!("--{}", alg);
         args.push(&flag);
@@ -514,7 +524,8 @@ CLI = r"""
         let mut want_dn = DistinguishedName::new(); want_dn.push(DnType::CommonName, "replay ee");
         assert_eq!(ee.distinguished_name, want_dn, "end-entity subject");
         let want_san = vec![SanType::DnsName("a.example".try_into().unwrap()), SanType::IpAddress("10.1.2.3".parse().unwrap()),
-            SanType::DnsName("localhost".try_into().unwrap()), SanType::IpAddress("2001:db8::1".parse().unwrap())];
+            SanType::DnsName("localhost".try_into().unwrap()), SanType::IpAddress("2001:db8::1".parse().unwrap()),
+            SanType::IpAddress("fe80::1".parse().unwrap()), SanType::IpAddress("fd00::5".parse().unwrap())];
         assert_eq!(ee.subject_alt_names, want_san, "end-entity names (IP literals as IP addresses, everything else as DNS names)");
         let mut want_eku = vec![]; if client { want_eku.push(E::ClientAuth); } if server { want_eku.push(E::ServerAuth); }
         assert_eq!(ee.extended_key_usages.len(), want_eku.len(), "purposes {:?}, requested {:?}", ee.extended_key_usages, want_eku);
@@ -599,6 +610,59 @@ PEM = r"""
 """
 
 
+NOPANIC = r"""
+    // C10 (parsing half) battery: every parse entry point on systematic mutations of valid inputs - Ok or Err, never a panic
+    use rcgen::*;
+    let key = KeyPair::generate().unwrap();
+    let mut p = CertificateParams::new(vec!["a.example".to_string(), "b.example".to_string()]).unwrap();
+    p.distinguished_name = DistinguishedName::new(); p.distinguished_name.push(DnType::CommonName, "np"); p.distinguished_name.push(DnType::OrganizationName, DnValue::PrintableString("o".try_into().unwrap()));
+    p.subject_alt_names.push(SanType::IpAddress("10.1.2.3".parse().unwrap())); p.subject_alt_names.push(SanType::IpAddress("2001:db8::1".parse().unwrap()));
+    p.subject_alt_names.push(SanType::Rfc822Name("m@a.example".try_into().unwrap())); p.subject_alt_names.push(SanType::URI("https://a.example".try_into().unwrap()));
+    p.key_usages = vec![KeyUsagePurpose::DigitalSignature, KeyUsagePurpose::DecipherOnly];
+    p.extended_key_usages = vec![ExtendedKeyUsagePurpose::ServerAuth, ExtendedKeyUsagePurpose::OcspSigning];
+    let csr_der = p.serialize_request(&key).unwrap().der().to_vec();
+    let mut dirname = DistinguishedName::new(); dirname.push(DnType::OrganizationName, "dir");
+    let mut pc = p.clone(); pc.is_ca = IsCa::Ca(BasicConstraints::Constrained(3)); pc.key_usages.push(KeyUsagePurpose::KeyCertSign);
+    pc.name_constraints = Some(NameConstraints { permitted_subtrees: vec![GeneralSubtree::DnsName("a.example".into()), GeneralSubtree::IpAddress(CidrSubnet::V4([10, 0, 0, 0], [255, 0, 0, 0])),
+        GeneralSubtree::IpAddress(CidrSubnet::V6([0x20; 16], [0xff; 16])), GeneralSubtree::DirectoryName(dirname)], excluded_subtrees: vec![GeneralSubtree::Rfc822Name("x@b.example".into())] });
+    pc.serial_number = Some(vec![1, 2, 3].into());
+    let cert_der = pc.self_signed(&key).unwrap().der().to_vec();
+    let key_der = key.serialize_der();
+    let spki_der = key.public_key_der();
+    let mut count = 0u64;
+    let mut check = |what: &str, bytes: &[u8]| {
+        count += 1;
+        let r = std::panic::catch_unwind(|| {
+            let _ = CertificateSigningRequestParams::from_der(&bytes.into());
+            let _ = CertificateParams::from_ca_cert_der(&bytes.into());
+            let _ = KeyPair::try_from(bytes);
+            let _ = SubjectPublicKeyInfo::from_der(bytes);
+            for alg in [&PKCS_ED25519, &PKCS_ECDSA_P256_SHA256, &PKCS_RSA_SHA256] { let _ = KeyPair::from_pkcs8_der_and_sign_algo(&bytes.into(), alg); }
+            if let Ok(text) = std::str::from_utf8(bytes) {
+                let _ = CertificateSigningRequestParams::from_pem(text); let _ = CertificateParams::from_ca_cert_pem(text); let _ = KeyPair::from_pem(text);
+                let _ = KeyPair::from_pem_and_sign_algo(text, &PKCS_ECDSA_P256_SHA256); let _ = SubjectPublicKeyInfo::from_pem(text);
+            }
+        });
+        assert!(r.is_ok(), "a parse entry point panicked on a mutation of a valid {} ({} bytes): {:02x?}", what, bytes.len(), &bytes[..bytes.len().min(48)]);
+    };
+    std::panic::set_hook(Box::new(|_| {}));
+    for (what, der) in [("certificate", &cert_der), ("CSR", &csr_der), ("private key", &key_der), ("SPKI", &spki_der)] {
+        check(what, der);
+        for cut in 0..der.len() { check(what, &der[..cut]); }
+        for pos in 0..der.len() { for x in [0x01u8, 0x80, 0xff] { let mut d = der.to_vec(); d[pos] ^= x; check(what, &d); } }
+        for pos in (0..der.len()).step_by(7) { let mut d = der.to_vec(); d.remove(pos); check(what, &d); let mut d = der.to_vec(); d.insert(pos, 0x30); check(what, &d); }
+    }
+    let cert = CertificateParams::from_ca_cert_der(&cert_der.as_slice().into()).unwrap().self_signed(&key).unwrap();
+    for (what, text) in [("certificate PEM", cert.pem()), ("key PEM", key.serialize_pem()), ("public key PEM", key.public_key_pem())] {
+        let b = text.as_bytes();
+        for cut in (0..b.len()).step_by(3) { check(what, &b[..cut]); }
+        for pos in (0..b.len()).step_by(2) { let mut d = b.to_vec(); d[pos] = b'!'; check(what, &d); let mut d = b.to_vec(); d[pos] = b'A'; check(what, &d); }
+    }
+    let _ = std::panic::take_hook();
+    assert!(count > 2000);
+"""
+
+
 def program(cex: dict) -> str:
     op = cex.get("op")
     pre = ", ".join(f"({t}, {v})" for (t, v) in cex.get("pre", []))
@@ -670,6 +734,8 @@ def program(cex: dict) -> str:
         body = CLI
     if op == "pem":
         body = PEM
+    if op == "parse-no-panic":
+        body = NOPANIC
     return PRELUDE + "fn main() {\n" + body + "    println!(\"replay-ok\");\n}\n"
 
 
